@@ -1,4 +1,4 @@
-\* repaired model: chain 0..10 (+3), Retained 0, one batch per block, min-age off, 7 operations; exhaustive: 1 595 216 distinct states (6 745 956 generated), 30 s on 8 workers
+\* repaired model: chain 0..10 (+3), Retained 0, one batch per block, min-age off, 7 operations, event-filter windows of 4 blocks; exhaustive: 2 876 015 distinct states (13 349 778 generated), 2.5 min on 4 busy workers
 CONSTANTS
   MaxH = 13
   InitH = 10
